@@ -76,6 +76,27 @@ def run(ctx: Ctx) -> None:
         cases.append({"kind": "counted", "blk": ["seq", [["ev", f"counted {b} x{sorted(counts)}"]]], "jobs": jobs,
                       "classes": []})
         ctx.tick("def_counted")
+    # job sets whose jobs do not all begin with the same event (an XOR or a concurrent pair at the very start): a later
+    # chunk then brings a first event the saved model has not seen.  Outside F's grammar (a sequence begins with an
+    # event); the statement is about every split of the data.
+    for _ in range(10 if quick else 60):
+        r = ctx.rng
+        jobs = []
+        tail = r.choice([1, 2])
+        def chain(firsts: list[str]) -> list[dict[str, Any]]:
+            nodes = [{"id": i, "typ": t, "prev": []} for i, t in enumerate(firsts)]
+            prev = list(range(len(firsts)))
+            for k in range(tail):
+                nodes.append({"id": len(nodes), "typ": "CDE"[k], "prev": prev})
+                prev = [len(nodes) - 1]
+            return nodes
+        starts = r.choice([[["A"], ["B"]], [["A"], ["B"], ["F"]], [["A"], ["A", "B"]], [["A", "B"], ["F"]]])
+        for st in starts:
+            for _ in range(r.choice([1, 2])):
+                jobs.append(chain(st))
+        cases.append({"kind": "alt_start", "blk": ["seq", [["ev", f"starts {starts} tail {tail}"]]], "jobs": jobs,
+                      "classes": []})
+        ctx.tick("def_alt_start")
     ctx.cov["rule"] = (
         "job sets (2-40 jobs) of fragment-F definitions and the corpus in a shuffled order; ordered splits into 2 and 3 "
         "chunks (every cut point for sets <= 6 jobs in the thorough tier, a seeded 5 otherwise), every chunk boundary "
